@@ -52,16 +52,16 @@ Proof.
 Qed.
 
 Theorem balanced_tree_rooted_lens d ls t : 1 <= d ->
-  Forall nonneg ls -> length ls = plan_floats (balanced_plan d) ->
+  Forall nonneg ls -> length ls = plan_floats (balanced_plan d true) ->
   balanced_tree d true ls = GOk t -> lens_nonneg t = true.
 Proof.
   intros Hd Hn Hl. destruct d as [|d]; [lia|].
-  unfold balanced_plan in Hl. cbn [Nat.ltb Nat.leb] in Hl.
-  unfold plan_floats in Hl. 
+  unfold balanced_plan in Hl. cbn [Nat.ltb Nat.leb negb andb orb] in Hl. rewrite ?andb_false_r in Hl. cbn [orb] in Hl.
+  unfold plan_floats in Hl.
   assert (F : forall k, length (filter (fun d0 : draw => match d0 with DFloat => true | _ => false end) (repeat DFloat k)) = k).
   { induction k; simpl; auto. }
   rewrite F in Hl.
-  unfold balanced_tree. cbn [Nat.ltb Nat.leb].
+  unfold balanced_tree. cbn [Nat.ltb Nat.leb negb]. rewrite andb_false_r.
   pose proof (bal_rec_lens d ls 0 Hn) as H. rewrite Hl in H. specialize (H (le_n _)).
   destruct (bal_rec (S d) ls 0) as [[sl ls'] id']. cbn [fst].
   intros E. inversion E; subst. apply H.
@@ -74,16 +74,16 @@ Proof.
 Qed.
 
 Theorem balanced_tree_unrooted_lens d ls t : 2 <= d ->
-  Forall nonneg ls -> length ls = plan_floats (balanced_plan d) ->
+  Forall nonneg ls -> length ls = plan_floats (balanced_plan d false) ->
   balanced_tree d false ls = GOk t -> lens_nonneg t = true.
 Proof.
   intros Hd Hn Hl. destruct d as [|[|d]]; try lia.
-  unfold balanced_plan in Hl. cbn [Nat.ltb Nat.leb] in Hl.
+  unfold balanced_plan in Hl. cbn [Nat.ltb Nat.leb negb andb orb] in Hl.
   unfold plan_floats in Hl.
   assert (F : forall k, length (filter (fun d0 : draw => match d0 with DFloat => true | _ => false end) (repeat DFloat k)) = k).
   { induction k; simpl; auto. }
   rewrite F in Hl.
-  unfold balanced_tree. cbn [Nat.ltb Nat.leb].
+  unfold balanced_tree. cbn [Nat.ltb Nat.leb negb andb].
   pose proof (bal_rec_lens (S d) ls 0 Hn) as H. rewrite Hl in H. specialize (H (le_n _)).
   pose proof (bal_rec_spec (S d) ls 0) as Hs.
   destruct (bal_rec (S (S d)) ls 0) as [[sl ls'] id']. cbn [fst].
